@@ -31,6 +31,9 @@ CLAIMS = {
     'C13': dict(
         text="Decides three structural clauses for all inputs/configurations: (1) in every chain-coder function that reads a backend, each path that continues after a read carries the Some/Continue decision of that read, so running out of compressed data or remainders can only surface as Err, never as data; (2) the two unsafe precision changers are called only where the static assertions of their dedicated safe wrappers are entailed by the caller's own assertions plus its branch (const-generic difference bounds); (3) ChainCoderHeads is private and built only by its constructor and the precision changers. Not decided: that decode followed by re-encode restores the words exactly (refill/flush thresholds and head arithmetic are value-level: a flipped comparison there is not detected).",
         tech="error-discipline (must-establish) rule over enumerated paths; const-generic entailment with difference bounds; literal-site inventory; compile-fail witnesses (thorough)"),
+    'C19': dict(
+        text="Decides necessary structural conditions for all inputs/configurations: every literal of a model type is produced after the Ok arm of a shared validator, by a view/conversion of an existing model, or behind inline rejecting guards (private producers discharged at their callers); the float-table ingesters agree on sign and length checks and the (symbols, probabilities) constructors reject a count mismatch in both directions (no silent zip); no accept/reject decision is an ordering comparison against wrapping_pow2(PRECISION) without a zero/precision test (it degenerates at PRECISION == BITS); the validator's accept decision depends on every accumulator. Known finding (printed, exit 0): the lazy categorical constructor accepts negative weights by design trade-off. Not decided: that an accepted table satisfies C03 numerically.",
+        tech="who-may-construct (literal-site) analysis with validator reachability; Engler-style sibling agreement of argument checks; two-point constant domain for wrapping_pow2; compile-fail witnesses (thorough)"),
 }
 
 NA = {
